@@ -19,7 +19,9 @@ WF_DEF = """
 Definition show_wf (g : grammar) (c : config) (mm : list ninfo) (tbl : list ((nat * nat) * nat)) (fuel : nat) (input : list N) : string :=
   match run g c (orc_of tbl) false fuel input with
   | Parsed (RTree (NT _ (t :: _))) => (if wf_tree t then "T" else "F") ++ (if asg_placed mm false t then "T" else "F") ++
-      (if (wfg g 24 && nosep g && eof_ok g && negb (existsb (fun e => Nat.eqb (snd e) 0) tbl))%bool then "T" else "F")
+      (if (wfg g 24 && nosep g && eof_ok g && negb (existsb (fun e => Nat.eqb (snd e) 0) tbl))%bool then "T" else "F") ++
+      (if BuildPlaced.table_asg_ok g mm 24 then "T" else "F") ++
+      (if (wfg g 24 && negb (existsb (fun e => Nat.eqb (snd e) 0) tbl))%bool then "T" else "F")
   | _ => "-"
   end.
 """
@@ -78,7 +80,7 @@ def run(chk):
     results = bc.run_impl(cases)
     from props.c01 import spec_expr, SPEC_IMPORTS, spec_extents, classify_dump, feature_tags, nid_class   # shared with C01
     vals, errs = bc.eval_model("C06", results, [bc.build_expr, wf_expr, spec_expr],
-                                imports=SPEC_IMPORTS.replace("Model.Spec.", "Model.Spec Proofs.SpecProofs Proofs.SpecSepProofs Proofs.SpecWf.", 1) + WF_DEF)
+                                imports=SPEC_IMPORTS.replace("Model.Spec.", "Model.Spec Proofs.SpecProofs Proofs.SpecSepProofs Proofs.SpecWf.\nFrom TxV Require Proofs.BuildPlaced.", 1) + WF_DEF)
     disagreements, failures = [], []
     if errs:
         disagreements.append({"case": "coq evaluation", "model": errs[:2]})
@@ -124,6 +126,12 @@ def run(chk):
                 disagreements.append({"case": cinfo, "impl": "tree not well formed although the hypotheses of C06_run_wf hold", "model": mv[1]})
             if mv[1][2:3] == "T":
                 chk.stat("trees covered by C06_run_wf")
+            if mv[1][3:4] == "F":
+                chk.stat("table_asg_ok false (the derived asg_placed does not apply)")
+            elif mv[1][4:5] == "T":
+                chk.stat("trees whose asg_placed is derived from the table (C06_asg_placed_of_run)")
+                if mv[1][1:2] == "F":
+                    disagreements.append({"case": cinfo, "impl": "asg_placed false although table_asg_ok and wfg hold", "model": mv[1]})
             if mv[1][1:2] == "F":
                 # hypothesis of C06_objects_nested_ordered: assignment nodes are children of common-rule nodes
                 disagreements.append({"case": cinfo, "impl": "an assignment node outside a common-rule node in the parse tree", "model": mv[1]})
